@@ -56,7 +56,7 @@ def generate(tier, seed):
             m = rng.randint(0, 5)
             chi = sorted(rng.dyadic(0, 40, 8) for _ in range(m)) + rng.choice([[], [math.inf], [math.nan], [math.inf, math.nan]])
             recs.append(dict(name='r%02d' % i, nd=rng.choice([1, 2, 3, 5]), chi2=chi, fluxes=rng.random() < 0.5))
-        cases.append(dict(kind='roundtrip', recs=recs))
+        cases.append(dict(kind='roundtrip', recs=recs, reuse=rng.choice([None, None, 'source', 'info'])))
     for k in range(nh):
         tab = c09.generate('quick', seed * 1000 + k)[0]   # a parameter table + ranked sources from the C09 generator
         nsrc = rng.randint(1, 3)
@@ -132,12 +132,28 @@ def _impl_roundtrip(case):
     from sedfitter.fit_info import FitInfoFile
     meta = fitutil.make_meta()
     infos = [fitutil.make_info(r['name'], c09.FLAGSETS.get(r['nd'], [1] * r['nd']), r['chi2'], meta=meta, fluxes=r['fluxes']) for r in case['recs']]
-    before = [fitutil.info_state(i, with_meta=True) for i in infos]
+    before = []
     with tempfile.TemporaryDirectory() as d:
         p = os.path.join(d, 'rt.fitinfo')
         f = FitInfoFile(p, 'w')
-        for i in infos:
+        shared = None
+        for k, i in enumerate(infos):
+            if case.get('reuse') == 'source':
+                # one Source object serves all records: its attributes are re-assigned before each record is written
+                if shared is None:
+                    shared = i.source
+                else:
+                    shared.name, shared.x, shared.y = i.source.name, i.source.x, i.source.y
+                    if len(i.source.valid) == len(shared.valid):
+                        shared.valid, shared.flux, shared.error = i.source.valid, i.source.flux, i.source.error
+                    i.source = shared
+            before.append(fitutil.info_state(i, with_meta=True))       # what the record holds at the moment it is written
             f.write(i)
+            if case.get('reuse') == 'info' and k == 0 and len(i.chi2) > 1:
+                # the same result object is written once more after a selection was applied to it
+                i.keep(('N', len(i.chi2) - 1))
+                before.append(fitutil.info_state(i, with_meta=True))
+                f.write(i)
         f.close()
         after = fitutil.read_all(p, with_meta=True)
     return dict(before=before, after=after)
